@@ -35,6 +35,8 @@ func main() {
 		_ = json.NewEncoder(os.Stdout).Encode(writecache.VerifConsts())
 	case "c17":
 		c17Main(args)
+	case "c16":
+		c16Main(args)
 	default:
 		fmt.Fprintln(os.Stderr, "unknown command")
 		os.Exit(2)
